@@ -354,11 +354,20 @@ def selftest_fast():
 _NOHASH_RE = re.compile(r"[0-9a-fA-F]{3}\Z|[0-9a-fA-F]{6}\Z")
 
 
+_RGB4_COMMA = re.compile(r"rgb\(\s*(" + _NUM + r"%?)\s*,\s*(" + _NUM + r"%?)\s*,\s*(" + _NUM + r"%?)\s*,\s*(" + _NUM + r")\s*\)\Z", re.I)
+_RGB4_SLASH = re.compile(r"rgb\(\s*(" + _NUM + r"%?)\s+(" + _NUM + r"%?)\s+(" + _NUM + r"%?)\s*/\s*(" + _NUM + r")\s*\)\Z", re.I)
+
+
 def _as_css(s):
+    """Map the library's documented non-CSS3 input forms onto CSS3: '#'-less hex, and the CSS Color 4 aliases of rgba()
+    that it accepts and composites (rgb(r, g, b, a) and rgb(r g b / a))."""
     if isinstance(s, str):
         t = s.strip(_WS)
         if t.lower() not in KEYWORD_RGB and _NOHASH_RE.match(t):
             return "#" + t
+        m = _RGB4_COMMA.match(t) or _RGB4_SLASH.match(t)
+        if m:
+            return "rgba({}, {}, {}, {})".format(*m.groups())
     return s
 
 
